@@ -14,7 +14,9 @@ def specs(tier):
     ex = ["contours", "meshmeta", "regions"]
     S = [gridlab.tokamak_spec("lsn", fpol="linear", extract=ex),
          gridlab.tokamak_spec("cdn", fpol="linear", options={"orthogonal": False}, extract=ex),
-         gridlab.circular_spec(options={"poloidal_spacing_method": "linear", "finecontour_Nfine": 200}, extract=ex)]
+         gridlab.circular_spec(options={"poloidal_spacing_method": "linear", "finecontour_Nfine": 200}, extract=ex),
+         # FineContour left visibly non-uniform (relaxed equalisation tolerance): the integral must use the actual point distances
+         gridlab.tokamak_spec("lsn", fpol="const", options={"finecontour_Nfine": 120, "finecontour_atol": 1.0e-3}, extract=ex)]
     if tier == "thorough":
         S += [gridlab.tokamak_spec("ldn", fpol="linear", extract=ex), gridlab.tokamak_spec("udn", fpol="const", options={"orthogonal": False}, extract=ex),
               gridlab.tokamak_spec("usn", fpol="negconst", options={"y_boundary_guards": 2}, extract=ex),
